@@ -3,6 +3,7 @@ mod c06;
 mod c07;
 mod c11;
 mod c18;
+mod plainwire;
 mod script;
 
 use vcommon::{Args, Report};
@@ -13,6 +14,8 @@ fn main() {
     let report: Report = match args.property.as_str() {
         "C06" => c06::run(&args),
         "C07" => c07::run(&args),
+        "C12" => plainwire::run_c12(&args),
+        "C16" => plainwire::run_c16(&args),
         "C11" => c11::run(&args),
         "C18" => c18::run(&args),
         other => panic!("httpdirect: unknown property {}", other),
